@@ -84,7 +84,7 @@ Proof.
 Qed.
 
 (** every clause of [safeb] that the theorems use is needed: flipping it alone
-    (from the safe configuration) admits a violating document *)
+    (from the safe configuration) lets a violating document through *)
 Lemma safe_clauses_needed :
   (* resolve_entities=True: a local file is read and its content is in the tree *)
   (p_events (parse (with_resolve RAll safe_cfg) wworld d_external) = [LoadFile 1] /\
